@@ -711,3 +711,8 @@ V("fix 11ce657 undone (verify): previous path searched in the root history's gen
 
             if single_file""", "R17.3")
 V("directory test of the rename matching with the wrong polarity", "C17", C, "                elif not os.path.isdir(os.path.join(root_path, new_path)):", "                elif os.path.isdir(os.path.join(root_path, new_path)):", "R17.9")
+V("fix dc3bf81 undone: first hash entry of a missing path dereferenced without None test", "C17", C, """                if not_found_path_hash is None:
+                    # a record without any hash (a folder recorded without directory hashes) cannot be matched
+                    continue
+
+""", "\n", "R17.11")
